@@ -421,4 +421,88 @@ theorem C18_read_step_ignored (arrays : String → Option (Aff α)) (nm : String
     readLayers.go arrays (nm :: rest) dim acc = readLayers.go arrays rest dim acc := by
   simp [readLayers.go, h]
 
+/-! ### the name pattern on characters
+
+`parseEntryName` is `parseEntryChars` on the characters of the name (by definition).  The documented dialect writes
+an entry as `<index>.<kind>` with an optional `.npy`; the three statements below say that exactly this is recognised:
+the digits before the first dot are the index, the rest (without one trailing `.npy`) is the kind, and a name that
+does not start with a digit, or whose index is not followed by a dot, is not an entry of the pattern. -/
+
+theorem takeWhile_digits_dot (ds rest : List Char) (hd : ds.all Char.isDigit = true) :
+    (ds ++ '.' :: rest).takeWhile Char.isDigit = ds := by
+  induction ds with
+  | nil => simp
+  | cons c cs ih =>
+    simp only [List.all_cons, Bool.and_eq_true] at hd
+    simp [List.takeWhile, hd.1, ih hd.2]
+
+/-- `<digits>.<kind>` where the kind does not itself end in `.npy` -/
+theorem C18_entry_name_plain (ds body : List Char) (hne : ds ≠ []) (hd : ds.all Char.isDigit = true)
+    (hk : body.all isKindChar = true)
+    (hns : (decide (body.length ≥ 4) && body.drop (body.length - 4) == npySuffix) = false) :
+    parseEntryChars (ds ++ '.' :: body) = some (ds, body) := by
+  unfold parseEntryChars
+  simp only [takeWhile_digits_dot ds body hd]
+  have he : ds.isEmpty = false := by cases ds <;> simp_all
+  simp only [he, Bool.false_eq_true, if_false, List.drop_left]
+  simp only [hns, Bool.false_eq_true, if_false, hk, if_true]
+
+/-- `<digits>.<kind>.npy`: one trailing `.npy` is not part of the kind -/
+theorem C18_entry_name_npy (ds body : List Char) (hne : ds ≠ []) (hd : ds.all Char.isDigit = true)
+    (hk : body.all isKindChar = true) :
+    parseEntryChars (ds ++ '.' :: (body ++ npySuffix)) = some (ds, body) := by
+  unfold parseEntryChars
+  simp only [takeWhile_digits_dot ds (body ++ npySuffix) hd]
+  have he : ds.isEmpty = false := by cases ds <;> simp_all
+  simp only [he, Bool.false_eq_true, if_false, List.drop_left]
+  have hlen : (body ++ npySuffix).length - 4 = body.length := by simp [npySuffix]
+  have hge : decide ((body ++ npySuffix).length ≥ 4) = true := by simp [npySuffix]
+  simp only [hlen, hge, List.drop_left, List.take_left, Bool.true_and, beq_self_eq_true, if_true, hk]
+
+/-- names outside the pattern: no leading digit, or no dot after the index -/
+theorem C18_entry_name_rejected (cs : List Char) :
+    (cs.head?.map Char.isDigit ≠ some true → parseEntryChars cs = none) ∧
+    (∀ ds c rest, ds.all Char.isDigit = true → c.isDigit = false → c ≠ '.' → cs = ds ++ c :: rest →
+      parseEntryChars cs = none) := by
+  refine ⟨fun h => ?_, fun ds c rest hd hc hdot hcs => ?_⟩
+  · unfold parseEntryChars
+    cases cs with
+    | nil => simp
+    | cons a as =>
+      have : a.isDigit = false := by
+        cases hh : a.isDigit with
+        | false => rfl
+        | true => simp [hh] at h
+      simp [List.takeWhile, this]
+  · subst hcs
+    unfold parseEntryChars
+    have htw : (ds ++ c :: rest).takeWhile Char.isDigit = ds := by
+      clear hdot
+      induction ds with
+      | nil => simp [List.takeWhile, hc]
+      | cons d dd ih =>
+        simp only [List.all_cons, Bool.and_eq_true] at hd
+        simp [List.takeWhile, hd.1, ih hd.2]
+    simp only [htw, List.drop_left]
+    split
+    · rfl
+    · split
+      · rename_i heq
+        simp only [List.cons.injEq] at heq
+        exact absurd heq.1 hdot
+      · rfl
+
+/-- the string-level function is the character-level one -/
+theorem C18_entry_name_chars (cs : List Char) :
+    parseEntryName (String.ofList cs) =
+      (parseEntryChars cs).map (fun p => (String.ofList p.1, String.ofList p.2)) := by
+  unfold parseEntryName
+  simp
+
+/-- non-vacuity: `12.relu.npy`, `7.linear.weights` and a name outside the pattern -/
+example : parseEntryChars ['1', '2', '.', 'r', 'e', 'l', 'u', '.', 'n', 'p', 'y'] = some (['1', '2'], ['r', 'e', 'l', 'u']) := by
+  decide +kernel
+example : parseEntryChars ['x', '.', 'r', 'e', 'l', 'u'] = none := by decide +kernel
+
+
 end AV
